@@ -3,6 +3,7 @@
   for every block size/row distribution and every limit setting.
 -/
 import BloomVerif.Lemmas.MergePlan
+import BloomVerif.Lemmas.MergeKey
 namespace BloomVerif.C12
 open BloomVerif
 
@@ -98,5 +99,38 @@ example :
     let cfg : EngineConfig := { MaxRowGroupRows := 10, MaxRowGroupBytes := 1000 }
     blockGroups cfg [⟨0, "k", 4, 10⟩, ⟨1, "k", 5, 10⟩, ⟨2, "k", 5, 10⟩, ⟨3, "j", 1, 1⟩] =
       [[⟨0, "k", 4, 10⟩, ⟨1, "k", 5, 10⟩], [⟨2, "k", 5, 10⟩], [⟨3, "j", 1, 1⟩]] := by decide
+
+/-- The bucket key the planner groups by (`blockMergeKey`: uvarint-length-prefixed partition id, then the
+    sorted minmax key names, each length-prefixed) identifies exactly the pair (partition, key set):
+    two blocks get the same key bytes iff their partitions are equal and their key-name lists are
+    permutations of each other - for every partition id and every set of names, whatever bytes they
+    contain (separators, prefixes of one another, names of 128 bytes and more). With
+    `group_same_key`, a merged block therefore never mixes partitions or minmax key sets. -/
+theorem merge_key_exact (p p' : List Nat) (ks ks' : List (List Nat)) :
+    MergeKey.blockMergeKey p ks = MergeKey.blockMergeKey p' ks' ↔ p = p' ∧ ks.Perm ks' :=
+  MergeKey.blockMergeKey_eq_iff_aux p p' ks ks'
+
+/-- The encoding itself is uniquely decodable (no sortedness needed). -/
+theorem merge_key_encoding_injective (p p' : List Nat) (ks ks' : List (List Nat))
+    (h : MergeKey.encodeKey p ks = MergeKey.encodeKey p' ks') : p = p' ∧ ks = ks' :=
+  MergeKey.encodeKey_inj_aux p p' ks ks' h
+
+/-- non-vacuity: key sets {x, yy} and {xy, y} concatenate to the same name bytes "xyy" but get different
+    keys, and the iteration order of the map does not matter ("x"=120, "y"=121) -/
+example :
+    MergeKey.blockMergeKey [112] [[120], [121, 121]] ≠ MergeKey.blockMergeKey [112] [[120, 121], [121]] ∧
+    MergeKey.blockMergeKey [112] [[121, 121], [120]] = MergeKey.blockMergeKey [112] [[120], [121, 121]] := by
+  constructor
+  · intro h
+    have := ((merge_key_exact _ _ _ _).mp h).2
+    revert this; decide
+  · exact (merge_key_exact _ _ _ _).mpr ⟨rfl, by decide⟩
+
+/-- non-vacuity of the injectivity premise: the partition/keys boundary cannot be shifted
+    (partition "ab", no keys vs partition "a", key "b" would need equal encodings) -/
+example : MergeKey.encodeKey [97, 98] [] ≠ MergeKey.encodeKey [97] [[98]] := by
+  intro h
+  have := (merge_key_encoding_injective _ _ _ _ h).1
+  revert this; decide
 
 end BloomVerif.C12
